@@ -27,8 +27,8 @@ def unwindset(tb):
     n = tb["instr_rows"] + 8
     m = tb["opd_rows"] + 4
     return {
-        "__CPROVER_file_local_assemblyline_c_asm_build_index_tables.0": n,
-        "__CPROVER_file_local_assemblyline_c_asm_build_index_tables.1": m,
+        # (every loop of the index build gets the larger table's bound, also loops a changed tree may add)
+        **{"__CPROVER_file_local_assemblyline_c_asm_build_index_tables.%d" % k: max(n, m) for k in range(6)},
         "str_to_instr_key.0": n, "str_to_instr_key.1": n,
         "get_opd_format.0": m,
         "find_reg.0": tb["reg_rows"] + 2,
